@@ -725,7 +725,7 @@ class Point(object):
         return not self == other
 
     def __neg__(self):
-        return Point(self.__curve, self.__x, self.__curve.p() - self.__y)
+        return Point(self.__curve, self.__x, -self.__y % self.__curve.p())
 
     def __add__(self, other):
         """Add one point to another point."""
@@ -813,6 +813,10 @@ class Point(object):
 
         p = self.__curve.p()
         a = self.__curve.a()
+
+        # a point with y == 0 is its own inverse
+        if not self.__y % p:
+            return INFINITY
 
         l = (
             (3 * self.__x * self.__x + a)
